@@ -124,8 +124,86 @@ def _strict_test(model: Model):
 
 
 # --------------------------------------------------------------------------- R2
+VECTOR_ALIASES = ("Matrix", "Rect", "Point")
+
+
+def _kind_at(f: FuncInfo, dtf, a: ast.AST, call: ast.AST) -> Optional[str]:
+    """Kind of argument `a` where `call` is made: the kinds of doctaint are per name, not per program point, so a parameter
+    that is re-bound before the call (bbox = apply_matrix_rect(matrix, rect)) is judged by the value it was last given; a
+    tuple display of document values has a known length (VEC): unpacking it cannot fail, using its elements can."""
+    src = a
+    if isinstance(a, ast.Name):
+        prev = [n for n in walk_no_nested(f.node) if isinstance(n, ast.Assign) and len(n.targets) == 1 and isinstance(n.targets[0], ast.Name) and n.targets[0].id == a.id and n.lineno < getattr(call, "lineno", 0)]
+        if prev:
+            src = max(prev, key=lambda n: n.lineno).value
+        elif any(isinstance(n, ast.Assign) and any(isinstance(t, ast.Name) and t.id == a.id for t in n.targets) for n in walk_no_nested(f.node)):
+            return dtf.kind(a)
+        else:
+            return dtf.kind(a)
+    if isinstance(src, (ast.Tuple, ast.List)):
+        ks = {dtf.kind(x) for x in src.elts}
+        return "VEC" if ks & {"RAW", "LIST", "DICT"} else None
+    if src is not a and isinstance(src, ast.Name):
+        return dtf.kind(src)
+    return dtf.kind(src)
+
+
+def _vector_params(model: Model, cg: CallGraph, reach: Set[str]) -> Dict[str, Dict[str, str]]:
+    """Document lists that reach a helper through a parameter.  The kinds of doctaint are per function; a parameter annotated
+    Matrix / Rect / Point promises a tuple of numbers of the right length, which holds only if every caller made it one.  Where
+    a caller passes a value whose kind is still LIST / RAW (list_value(xobj.get('Matrix', ...)) - a list of whatever the
+    document wrote), the parameter takes that kind, so the unpacking and the arithmetic inside the helper are partial
+    operations on document values like anywhere else.  Iterated: begin_figure(bbox, matrix) hands both on."""
+    from ..doctaint import PARAM_KIND, DocTaint
+
+    added: Dict[str, Dict[str, str]] = {}
+    for _ in range(5):
+        changed = False
+        for q in sorted(reach):
+            f = model.funcs.get(q)
+            if f is None or isinstance(f.node, ast.Lambda):
+                continue
+            dtf = DocTaint(f)
+            for (c, callees, status) in cg.edges.get(q, []):
+                if status != "resolved" or not getattr(c, "args", None) and not getattr(c, "keywords", None):
+                    continue
+                for g in callees:
+                    if isinstance(g.node, ast.Lambda) or not g.qualname.startswith("pdfminer."):
+                        continue
+                    ga = g.node.args  # type: ignore[attr-defined]
+                    ps = [a for a in ga.posonlyargs + ga.args]
+                    off = 0
+                    if ps and ps[0].arg in ("self", "cls"):
+                        explicit_self = bool(c.args) and isinstance(c.args[0], ast.Name) and c.args[0].id == "self" and isinstance(c.func, ast.Attribute) and isinstance(c.func.value, ast.Name) and c.func.value.id in {cq.split(".")[-1] for cq in model.classes}
+                        off = 0 if explicit_self else 1
+                    bind = []
+                    for i, a in enumerate(c.args):
+                        if isinstance(a, ast.Starred):
+                            break
+                        if i + off < len(ps):
+                            bind.append((ps[i + off], a))
+                    for kw in c.keywords:
+                        for p_ in ps + list(ga.kwonlyargs):
+                            if kw.arg == p_.arg:
+                                bind.append((p_, kw.value))
+                    for p_, a in bind:
+                        ann = ast.unparse(p_.annotation) if p_.annotation is not None else ""
+                        if ann.strip("'\"") not in VECTOR_ALIASES:
+                            continue
+                        k = _kind_at(f, dtf, a, c)
+                        if k in ("LIST", "RAW", "VEC") and PARAM_KIND.get(g.qualname, {}).get(p_.arg) != k:
+                            PARAM_KIND.setdefault(g.qualname, {})[p_.arg] = k
+                            added.setdefault(g.qualname, {})[p_.arg] = f"{k} from {q.split('.')[-1]}: {ast.unparse(a)[:50]}"
+                            changed = True
+        if not changed:
+            break
+    return added
+
+
 def _escapes(model: Model, rep: Report, cg: CallGraph, reach: Set[str]) -> None:
     r2 = rep.rule("C13-R2", "EXC", "no internal error (type/index/key/struct/value/...) can escape the extraction entry points", 40)
+    vp = _vector_params(model, cg, reach)
+    rep.analysed["vector_parameters_fed_with_document_lists"] = {k: v for k, v in sorted(vp.items())}
     ops = make_ops(model)
     xf = ExcFlow(model, cg.r, ops, scope=reach, include_assert=False, dead_test=_strict_test(model), implicit=cg.implicit)
     xf.solve()
